@@ -12,6 +12,7 @@ from prop import SchedProp  # noqa: E402
 
 class C11S(SchedProp):
     id = 'C11S'
+    report_id = 'C11'
     drv = 'C11S'
     props_modules = ['CylcModel.Props.C11Sched']
     theorems = [
